@@ -150,6 +150,7 @@ class Engine:
         self.cloner = Cloner(self)
         self.keyer = Keyer(self)
         self.native_models[prelude._is_gen] = lambda I, W, a, k: isinstance(a[0], IP.SGen)
+        self.native_models[prelude._is_plain] = lambda I, W, a, k: MD.is_simple(a[0]) and not isinstance(a[0], (list, dict, MD.SSet))
         self._owned_cache = {}
         self.t0 = time.time()
         self.fresh = 0
